@@ -17,7 +17,7 @@ LEVEL = 'proof'
 MODULES = ['Pysmi.Props.C20', 'Pysmi.Props.C07', 'Pysmi.Props.C13', 'Pysmi.Pins.SkelC20']
 LAKE_TARGETS = ['Pysmi.Props.C20', 'Pysmi.Props.C07', 'Pysmi.Props.C13', 'Pysmi.Pins.SkelC20']
 THEOREMS = ['Pysmi.Pins.SkelC20.pin_mibdumpScript', 'Pysmi.Pins.SkelC20.pin_mibcopyScript', 'Pysmi.Cli.C20_exit', 'Pysmi.Cli.C20_report', 'Pysmi.Cli.C20_report_once', 'Pysmi.Cli.C20_mibcopy_latest', 'Pysmi.Cli.C20_mibcopy_provenance',
-            'Pysmi.Cli.C20_mibcopy_order_irrelevant', 'Pysmi.Cli.C20_mibcopy_dry_run', 'Pysmi.Cli.C20_mibcopy_dry_report', 'Pysmi.Cli.C20_mibcopy_dry', 'Pysmi.Cli.C20_mibcopy_epoch_witness', 'Pysmi.Cli.mibcopy_dst',
+            'Pysmi.Cli.C20_mibcopy_order_irrelevant', 'Pysmi.Cli.C20_mibcopy_dry_run', 'Pysmi.Cli.C20_mibcopy_dry_report', 'Pysmi.Cli.C20_mibcopy_dry', 'Pysmi.Cli.C20_mibcopy_epoch_witness', 'Pysmi.Cli.mibcopy_dst', 'Pysmi.Cli.C20_revision_latest', 'Pysmi.Cli.C20_revision_order_irrelevant',
             'Pysmi.Generated.Cli.pin_exit_codes', 'Pysmi.Generated.Cli.pin_absent_revision', 'Pysmi.Generated.Cli.C20_exit_generated', 'Pysmi.Generated.Cli.C20_index_guard', 'Pysmi.Generated.Cli.C20_run_generated',
             'Pysmi.Compile.C07_written_iff_reported_partial', 'Pysmi.Writer.C13_atomic', 'Pysmi.Writer.C13_dryrun']
 TECHNIQUE = ('Lean 4 theorems about a model of mibdump\'s exit code and report as functions of the status map (exit codes regenerated from '
@@ -29,7 +29,7 @@ TECHNIQUE = ('Lean 4 theorems about a model of mibdump\'s exit code and report a
 LEVEL_TEXT = ('Proved in Lean: exit status 0 iff no module is missing or failed; a module is reported under exactly the category of its '
               'status; after mibcopy\'s loop every module seen is in the destination with a revision at least as new as every source seen; a dry run of mibcopy leaves the destination alone and takes every copy / do-not-copy decision of the real run (C20_mibcopy_dry_run, C20_mibcopy_dry_report), '
               'what is stored is a file seen or what was there before, and the stored revision does not depend on the visiting order - for '
-              'every list of sources and every initial destination (the script\'s cache is proved to mirror the destination). The files-on-disk '
+              'every list of sources and every initial destination (the script\'s cache is proved to mirror the destination); the revision of a module is the latest of its REVISION clauses in whatever order they stand (C20_revision_latest, C20_revision_order_irrelevant; compared with the compiler\'s report on generated modules). The files-on-disk '
               'part rests on C07_written_iff_reported and C13_atomic / C13_dryrun for the library. Exercised, not modelled (partial): option '
               'parsing, the wiring of readers / searchers / writers in the scripts, revision extraction through a JSON compile, os.walk order, '
               'shutil.copy.')
@@ -265,18 +265,91 @@ def listing(dst, fmt):
     return out
 
 
-REV_MIB = '''%(name)s DEFINITIONS ::= BEGIN
+class _RevTemplate(str):
+    """the module text for a revision; the history of the module (REVISION clauses older than every generated revision) is written oldest
+    first, latest first or not at all, as a function of the revision itself - so a replay needs the revision only"""
+    OLDER = ['197001020000Z', '197006010000Z']
+
+    def __mod__(self, d):
+        d = dict(d)
+        k = int(d['rev'][:-1]) % 3
+        clause = ' REVISION "%s" DESCRIPTION "h"\n'
+        d['before'] = ''.join(clause % r for r in self.OLDER[:k])                       # ascending history: the latest clause stands last
+        d['after'] = ''.join(clause % r for r in reversed(self.OLDER)) if k == 0 and int(d['rev'][:-1]) % 2 else ''
+        return str.__mod__(self, d)
+
+
+REV_MIB = _RevTemplate('''%(name)s DEFINITIONS ::= BEGIN
 IMPORTS MODULE-IDENTITY, enterprises FROM SNMPv2-SMI;
 %(ident)s MODULE-IDENTITY LAST-UPDATED "%(rev)s" ORGANIZATION "o" CONTACT-INFO "c" DESCRIPTION "%(tag)s"
- REVISION "%(rev)s" DESCRIPTION "r" ::= { enterprises %(n)d }
+%(before)s REVISION "%(rev)s" DESCRIPTION "r"
+%(after)s ::= { enterprises %(n)d }
 END
-'''
+''')
 NOREV_MIB = '''%(name)s DEFINITIONS ::= BEGIN
 IMPORTS enterprises FROM SNMPv2-SMI;
 %(ident)s OBJECT IDENTIFIER ::= { enterprises %(n)d }
 -- %(tag)s
 END
 '''
+
+
+MULTIREV_MIB = '''REVS-%(n)d-MIB DEFINITIONS ::= BEGIN
+IMPORTS MODULE-IDENTITY, enterprises FROM SNMPv2-SMI;
+revsNode MODULE-IDENTITY LAST-UPDATED "%(last)s" ORGANIZATION "o" CONTACT-INFO "c" DESCRIPTION "d"
+%(clauses)s ::= { enterprises %(a)d }
+END
+'''
+
+
+def module_revision(stamps, n=1):
+    """the revision the compiler reports (status.revision, what mibcopy compares) for a module whose REVISION clauses are `stamps`,
+    in this order; as the number YYYYMMDDHHMM, None without a clause"""
+    from impl import pipeline
+    mn = 'REVS-%d-MIB' % n
+    text = MULTIREV_MIB % {'n': n, 'a': 600 + n, 'last': (stamps or ['200001010000Z'])[-1],
+                           'clauses': ''.join(' REVISION "%s" DESCRIPTION "r"\n' % x for x in stamps)}
+    st, out, _ = pipeline.compile_set({mn: text}, backend='json')
+    if str(st.get(mn)) != 'compiled':
+        return 'not compiled: %s' % getattr(st.get(mn), 'error', st.get(mn))
+    rev = getattr(st[mn], 'revision', None)
+    if rev is None:
+        return None
+    m = re.match(r'(\d{4})-(\d\d)-(\d\d) (\d\d):(\d\d)$', rev)
+    return int(''.join(m.groups())) if m else 'odd: %r' % (rev,)
+
+
+def revision_stream(ctx):
+    """modules with 0-5 REVISION clauses in random order (ten- and twelve-digit stamps): reported revision vs Cli.moduleRevision and vs
+    the latest clause"""
+    res, rng = ctx.res, ctx.rng
+    reqs, metas = [], []
+    for i in range(25 if ctx.tier == 'quick' else 400):
+        k = rng.choice([0, 1, 2, 2, 3, 3, 4, 5])
+        vals = []
+        while len(vals) < k:
+            v = (rng.randint(1971, 2030), rng.randint(1, 12), rng.randint(1, 28), rng.randint(0, 23), rng.randint(0, 59))
+            if v not in vals:
+                vals.append(v)
+        if rng.random() < 0.3:
+            vals.sort()                                     # a history written oldest first
+        # (ten-digit stamps have a two-digit year of the 1900s)
+        stamps = ['%02d%02d%02d%02d%02dZ' % ((v[0] - 1900,) + v[1:]) if v[0] < 2000 and rng.random() < 0.5 else '%04d%02d%02d%02d%02dZ' % v
+                  for v in vals]
+        want_all = [int('%04d%02d%02d%02d%02d' % v) for v in vals]
+        got = module_revision(stamps, n=i)
+        res.case(('module-revision', tuple(stamps)), k >= 2)
+        res.count('module-revision:%d-clauses' % k)
+        inp = {'revision_stamps': stamps, 'want': max(want_all) if want_all else None}
+        if got != inp['want']:
+            res.oracle_failures.append({'key': 'module-revision', 'what': 'a module with REVISION clauses %s is reported with revision %r; the latest is %r' % (
+                stamps, got, inp['want']), 'input': inp})
+        reqs.append({'op': 'cli', 'what': 'modrev', 'revs': want_all})
+        metas.append((stamps, got))
+    if ctx.model is not None:
+        for (stamps, got), out in zip(metas, ctx.model.batch(reqs)):
+            if out.get('rev') != got:
+                res.corr_failures.append({'what': 'reported module revision differs from Cli.moduleRevision', 'stamps': stamps, 'impl': got, 'model': out.get('rev')})
 
 
 def copy_scenario(rng, root, idx):
@@ -470,6 +543,7 @@ def run(ctx):
         res.sample({'mibdump_args': scs[0]['args'][1:], 'stderr_tail': outs[0][1][-600:]})
     finally:
         shutil.rmtree(root, ignore_errors=True)
+    revision_stream(ctx)
 
 
 def search(ctx):
@@ -480,6 +554,9 @@ def search(ctx):
 def replay(payload):
     inp = payload['input']
     key = payload.get('key', '')
+    if 'revision_stamps' in inp:
+        got = module_revision(inp['revision_stamps'])
+        return {'fails': got != inp['want'], 'what': 'reported revision %r' % (got,)}
     root = common.scratch_dir('c20r-')
     try:
         if 'regen' in inp and not key.startswith('mibcopy'):
